@@ -710,6 +710,9 @@ func (e *Eval) compile(node ast.Node) error {
 		//
 		patches := []int{}
 
+		// Have we compiled the thing we're testing?
+		tested := false
+
 		// We have to assemble each choice
 		for _, opt := range node.Choices {
 
@@ -721,6 +724,7 @@ func (e *Eval) compile(node ast.Node) error {
 
 			// Look at any expression we've got in this case.
 			for _, val := range opt.Expr {
+				tested = true
 
 				// OK so we have an expression.
 				//
@@ -762,6 +766,21 @@ func (e *Eval) compile(node ast.Node) error {
 				e.changeOperand(pos, len(e.instructions))
 			}
 
+		}
+
+		//
+		// A switch which has no case to test - only a default-block,
+		// or nothing at all - still has a value.
+		//
+		// It was never compiled, so "switch ( a[0] += 1 ) { default { .. } }"
+		// was accepted, and "switch ( 1 / 0 ) { default { .. } }" ran
+		// without an error: the expression was silently dropped.
+		//
+		if !tested {
+			err := e.compile(node.Value)
+			if err != nil {
+				return err
+			}
 		}
 
 		//
